@@ -339,6 +339,62 @@ func genSort(g *hx.Gen) {
 		g.Emit(sortCase(a))
 	}
 
+	// ---- runs with misplaced ends: an ascending (or descending, or constant) run of every length 2..N
+	// (both parities, every length across the insertion-sort / quickSort boundary and the capacity
+	// doublings) whose last 1..3 or first 1..3 cells are out of place ("append, then sort again";
+	// "push to the front, then sort").  Any pre-check for "already in order", any unrolled or
+	// strided scan, and any merge of a sorted prefix with a tail is decided by exactly these cells.
+	endN := g.Pick(96, 200)
+	for n := 2; n <= endN; n++ {
+		base := make([]int, n)
+		for j := range base {
+			base[j] = 2 * j // even values: odd ones fall strictly between
+		}
+		variants := 0
+		emitV := func(a []int) { g.Emit(sortCase(a)); variants++ }
+		// last cell too small / in the middle / equal to its predecessor's predecessor
+		for _, v := range []int{-1, n - 1 | 1, 2*(n-1) - 3} {
+			a := append([]int(nil), base...)
+			a[n-1] = v
+			emitV(a)
+		}
+		// first cell too large / in the middle
+		for _, v := range []int{2*n + 1, n | 1} {
+			a := append([]int(nil), base...)
+			a[0] = v
+			emitV(a)
+		}
+		if n >= 4 {
+			// the last two / three cells form their own ascending run below the prefix's end
+			a := append([]int(nil), base...)
+			a[n-2], a[n-1] = 1, 3
+			emitV(a)
+			a = append([]int(nil), base...)
+			a[n-3], a[n-2], a[n-1] = 2*(n-3)+1, 2*(n-3)-1, 2*(n-3)-3
+			emitV(a)
+			// exactly one adjacent descent at a chosen place: last-but-one pair, first pair, middle
+			for _, at := range []int{n - 3, 0, n / 2} {
+				a = append([]int(nil), base...)
+				a[at], a[at+1] = a[at+1], a[at]
+				emitV(a)
+			}
+		}
+		// descending with the last cell too large; constant with the last cell smaller
+		a := make([]int, n)
+		for j := range a {
+			a[j] = -2 * j
+		}
+		a[n-1] = 1
+		emitV(a)
+		for j := range a {
+			a[j] = 7
+		}
+		a[n-1] = 6
+		emitV(a)
+		_ = variants
+	}
+	g.Exhaustive(fmt.Sprintf("ints.Sort on ascending/descending/constant runs of every length 2..%d with misplaced first or last cells and single adjacent descents", endN))
+
 	// the largest sizes: 1000 in the quick tier, up to 5000 in the thorough tier
 	large := []int{1000}
 	if g.Thorough() {
